@@ -108,10 +108,15 @@ Bounded  == \A t \in -1..MaxT, w \in 0..MaxW, c \in -1..(MaxT + 1) : PR(t, c, w)
 (* the spinner filler (bar_filler_spinner.go) with a frame as wide as the tip: the frame is
    positioned within the allotted width, or nothing is drawn when it does not fit *)
 SpinnerOut == IF Allot < p.tw THEN 0 ELSE Allot
+(* a spinner whose frames differ in width (the widths of the row's tip, padding and refill strings): the k-th
+   call draws frame k, and each frame is measured on its own *)
+SpinFrames  == <<p.tw, p.pw, p.rw>>
+SpinnerSeq  == [k \in 1..4 |-> LET fw == SpinFrames[((k - 1) % 3) + 1] IN IF Allot < fw THEN 0 ELSE Allot]
+SpinnerFits == \A k \in 1..4 : SpinnerSeq[k] <= p.avail \/ p.avail < 0
 
 (* the table replayed on the real filler: one line per terminated call *)
 EmitRow == pc = "done" =>
   PrintT(<<"ROW", ToJson([p |-> p, nFiller |-> nFiller, nRefiller |-> nRefiller, nPad |-> nPad, nEll |-> nEll,
                           tip |-> tipUsed, lb |-> lb, rb |-> rb, out |-> Out, width |-> width, share |-> Share,
-                          spin |-> SpinnerOut])>>)
+                          spin |-> SpinnerOut, spinseq |-> SpinnerSeq])>>)
 =============================================================================
